@@ -57,7 +57,25 @@ theorem export_roundtrip_perm (m : List (Str × Enzyme)) (hnd : (m.map (·.1)).N
     ∃ m', importJ (exportJ m) = some m' ∧ m'.Perm m :=
   ⟨_, export_roundtrip m, sortedEntries_perm {} m hnd⟩
 
-/-- the map `Parse` returns for a listing survives Export and re-import -/
+/-- **the JSON export parses back to the same map, at the level of the TEXT**: `exportText m` is the text
+of `exportJ m` written by the printer of Base/JVal (compared byte for byte with `rebase.Export`'s real
+output on every case), `importText` reads a text with the reader of Base/JsonRead and then `importJ`;
+the composition gives the entries of `m` in sorted key order, for every map (rests on
+`JsonText.parse_print`: the reader reads back whatever the printer writes) -/
+theorem export_text_roundtrip (m : List (Str × Enzyme)) : importText (exportText m) = some (sortedEntries {} m) :=
+  importText_exportText tags_nodup m
+
+/-- … which is `m` itself up to the order of the entries when the keys are distinct (a Go map) -/
+theorem export_text_roundtrip_perm (m : List (Str × Enzyme)) (hnd : (m.map (·.1)).Nodup) :
+    ∃ m', importText (exportText m) = some m' ∧ m'.Perm m :=
+  ⟨_, export_text_roundtrip m, sortedEntries_perm {} m hnd⟩
+
+/-- the map `Parse` returns for a listing survives Export (as text) and re-import -/
+theorem parse_export_text_roundtrip (sups : List Supplier) (recs : List Rec) (ℓ : Layout) (h : wfListing sups recs ℓ = true) :
+    ∃ m m', parse (listing sups recs ℓ) = .ok m ∧ importText (exportText m) = some m' ∧ m'.Perm m :=
+  ⟨_, _, parse_listing sups recs ℓ h, export_text_roundtrip _, sortedEntries_perm {} _ (expectedMap_keys_nodup sups recs)⟩
+
+/-- the map `Parse` returns for a listing survives Export and re-import (value level) -/
 theorem parse_export_roundtrip (sups : List Supplier) (recs : List Rec) (ℓ : Layout) (h : wfListing sups recs ℓ = true) :
     ∃ m m', parse (listing sups recs ℓ) = .ok m ∧ importJ (exportJ m) = some m' ∧ m'.Perm m :=
   ⟨_, _, parse_listing sups recs ℓ h, export_roundtrip _, sortedEntries_perm {} _ (expectedMap_keys_nodup sups recs)⟩
